@@ -691,6 +691,17 @@ Definition handle_cancel (s : st) (jid : N) : res st :=
       end
   end.
 
+(** [handle_prune_journal]: the jobs that are not terminated ([!is_open() && has_no_active_tasks()],
+    short-circuit) and the connected workers are what the journal keeps. *)
+Fixpoint live_jobs (js : list job) : res (list N) :=
+  match js with
+  | [] => Ok []
+  | j :: r =>
+      do term <- (if j_open j then Ok false else has_no_active_tasks j);
+      do rest <- live_jobs r;
+      Ok (if term then rest else j_id j :: rest)
+  end.
+
 (** [handle_job_forget] (every terminal status is allowed by the filter the harness sends) *)
 Definition handle_forget (s : st) (jid : N) : res st :=
   match find_job (hq_jobs s) jid with
